@@ -21,6 +21,7 @@ def supplied_levels(case):
     lv = {"defaults": init.get("defaults") or {}, "overrides": init.get("overrides") or {},
           "collection": {}}
     proj, rt = init.get("proj"), init.get("rt")
+    ops = [[o[0][:-2]] + list(o[1:]) if o[0].endswith("_d") else o for o in ops]
     names = [o[0] for o in ops]
     for o in ops:
         if o[0] == "load_defaults":
@@ -70,7 +71,8 @@ class C03(Prop):
             "project/runtime levels are real files (yaml/yml/json/py, several candidates with different "
             "contents at once, occasionally an empty YAML file or an unreadable candidate); the "
             "environment names settings of the schema; levels are fed through the constructor or the "
-            "load_* calls in a random order, load_shell_env last.  Non-trivial = at least 3 levels "
+            "load_* calls in a random order -- 45% of the cases with some or all loads deferred (merge=False) and "
+            "then an explicit merge() or load_shell_env() at the end --, load_shell_env last.  Non-trivial = at least 3 levels "
             "define a common path; distinct by the whole case")
     trusted_base = [
         "Coq 8.16.1 kernel + vm_compute (shard evaluation)",
@@ -169,9 +171,24 @@ class C03(Prop):
             loads.append([rng.choice(["load_system", "load_user"])])   # no-op: already loaded
         rng.shuffle(pre)
         rng.shuffle(loads)
+        # merge=False: some or all loads deferred; the script then ends with
+        # load_shell_env() or an explicit merge()
+        deferred = False
+        if rng.random() < 0.45:
+            p_def = rng.choice([0.4, 0.7, 1.0])
+            for o in loads:
+                if rng.random() < p_def:
+                    o[0] += "_d"
+                    deferred = True
+            if rng.random() < 0.2 and loads:
+                loads.insert(rng.randrange(len(loads) + 1), ["merge"])
         ops = pre + loads
-        if rng.random() < 0.75:
+        if rng.random() < (0.75 if not deferred else 0.85):
+            if rng.random() < 0.1:
+                ops.append(["merge"])
             ops.append(["load_shell_env", cc.env_for(rng, sch, rng.choice([0.2, 0.5]))])
+        elif deferred or rng.random() < 0.1:
+            ops.append(["merge"])
         return {"fs": fs, "init": init, "ops": ops}
 
     def generate(self, rng, tier, n):
@@ -273,6 +290,14 @@ class C03(Prop):
                  "ops": [list(o) for o in case["ops"]]}
             r = rng.random()
             loads = [i for i, o in enumerate(c["ops"]) if o[0].startswith("load_") and o[0] != "load_shell_env"]
+            if rng.random() < 0.3 and loads:
+                i = rng.choice(loads)
+                if not c["ops"][i][0].endswith("_d"):
+                    c["ops"][i][0] += "_d"
+                    if c["ops"][-1][0] not in ("merge", "load_shell_env"):
+                        c["ops"].append(["merge"])
+                    yield c
+                    continue
             if r < 0.4 and len(loads) >= 2:
                 i, j = rng.sample(loads, 2)
                 c["ops"][i], c["ops"][j] = c["ops"][j], c["ops"][i]
